@@ -387,6 +387,7 @@ fn max_existing(es: &[E; NENT]) -> u32
 }
 
 #[kani::proof]
+#[kani::stub(std::alloc::dealloc, stub_dealloc)]
 #[kani::unwind(5)]
 fn u_nextid()
 {
@@ -426,6 +427,7 @@ fn u_nextid()
 // U-count : CountMissingReferenceIdProcessor::map + reduce
 // ---------------------------------------------------------------------------------------------
 #[kani::proof]
+#[kani::stub(std::alloc::dealloc, stub_dealloc)]
 #[kani::unwind(5)]
 fn u_count()
 {
@@ -457,6 +459,7 @@ fn u_count()
 // U-insert : InsertReferencesProcessor::map against the FS model
 // ---------------------------------------------------------------------------------------------
 #[kani::proof]
+#[kani::stub(std::alloc::dealloc, stub_dealloc)]
 #[kani::unwind(10)]
 #[kani::stub(crate::parser::code_parser::LogRefEntry::insertable_reference_string, stub_token)]
 #[kani::stub(AsyncTempFile::new, stub_tempfile_new)]
@@ -469,6 +472,7 @@ fn u_insert()
 
 /// Symbolic content, entries, counter and write-cache drain points; no injected failures.
 #[kani::proof]
+#[kani::stub(std::alloc::dealloc, stub_dealloc)]
 #[kani::unwind(10)]
 #[kani::stub(crate::parser::code_parser::LogRefEntry::insertable_reference_string, stub_token)]
 #[kani::stub(AsyncTempFile::new, stub_tempfile_new)]
@@ -483,6 +487,7 @@ fn u_insert_content()
 /// content is the fixed string of distinct bytes "abcd.." (content bytes are never inspected by
 /// the code under test; u_insert_content covers arbitrary bytes).
 #[kani::proof]
+#[kani::stub(std::alloc::dealloc, stub_dealloc)]
 #[kani::unwind(10)]
 #[kani::stub(crate::parser::code_parser::LogRefEntry::insertable_reference_string, stub_token)]
 #[kani::stub(AsyncTempFile::new, stub_tempfile_new)]
@@ -597,6 +602,7 @@ fn insert_body(faults: bool, symbolic_content: bool)
 
 /// Entries that violate the parser's ordering guarantee: the run must fail and leave the file alone.
 #[kani::proof]
+#[kani::stub(std::alloc::dealloc, stub_dealloc)]
 #[kani::unwind(10)]
 #[kani::stub(crate::parser::code_parser::LogRefEntry::insertable_reference_string, stub_token)]
 #[kani::stub(AsyncTempFile::new, stub_tempfile_new)]
@@ -641,6 +647,7 @@ fn u_insert_unordered()
 // U-insert-reduce : InsertReferencesProcessor::reduce
 // ---------------------------------------------------------------------------------------------
 #[kani::proof]
+#[kani::stub(std::alloc::dealloc, stub_dealloc)]
 #[kani::unwind(5)]
 fn u_insert_reduce()
 {
@@ -997,6 +1004,7 @@ fn d_generate()
 /// Same run, but asking about the operation boundary right after the insert pass: would a kill
 /// there leave ids on disk that the lock file does not cover?
 #[kani::proof]
+#[kani::stub(std::alloc::dealloc, stub_dealloc)]
 #[kani::unwind(4)]
 #[kani::stub(process_references, stub_process_references)]
 #[kani::stub(crate::codegen::finder::CodeFinder::find, stub_finder_find)]
@@ -1118,6 +1126,7 @@ fn generate_body(kill_window: bool)
 }
 
 #[kani::proof]
+#[kani::stub(std::alloc::dealloc, stub_dealloc)]
 #[kani::unwind(4)]
 #[kani::stub(process_references, stub_process_references)]
 #[kani::stub(crate::codegen::finder::CodeFinder::find, stub_finder_find)]
@@ -1165,6 +1174,7 @@ fn d_check()
 // U-load : load_code returns exactly what is on disk (or None)
 // ---------------------------------------------------------------------------------------------
 #[kani::proof]
+#[kani::stub(std::alloc::dealloc, stub_dealloc)]
 #[kani::unwind(8)]
 fn u_load()
 {
@@ -1262,6 +1272,7 @@ fn stub_find_references(_l: CodeLanguage, _code: &str, _config: &Config) -> Vec<
 }
 
 #[kani::proof]
+#[kani::stub(std::alloc::dealloc, stub_dealloc)]
 #[kani::unwind(4)]
 #[kani::stub(crate::codegen::finder::CodeFinder::find, stub_finder_find)]
 #[kani::stub(crate::parser::code_parser::find_references, stub_find_references)]
@@ -1345,6 +1356,7 @@ fn u_pr()
 // U-insert2 : two files through the real map with the shared counter (no injected failures)
 // ---------------------------------------------------------------------------------------------
 #[kani::proof]
+#[kani::stub(std::alloc::dealloc, stub_dealloc)]
 #[kani::unwind(10)]
 #[kani::stub(crate::parser::code_parser::LogRefEntry::insertable_reference_string, stub_token)]
 #[kani::stub(AsyncTempFile::new, stub_tempfile_new)]
